@@ -73,8 +73,9 @@ Definition const_oracles (a : orc_ans) : oracles :=
 
 Inductive c11case :=
 (* reg = true: JWKRegistry.import_key(d, parameters=ps); false: <kt>Key.import_key(d, ps).
-   expect: (key.as_dict(), key.as_dict(private=False), numbers of the native key) *)
-| CImport (reg : bool) (kt : ktype) (d ps : dict) (a : orc_ans) (expect : res (dict * dict * native))
+   expect: (key.as_dict(), key.as_dict(private=False), key.as_dict(private=True, zz="1"),
+   numbers of the native key) *)
+| CImport (reg : bool) (kt : ktype) (d ps : dict) (a : orc_ans) (expect : res (dict * dict * res dict * native))
 (* <kt>Key.validate_dict_key(d) *)
 | CValidate (kt : ktype) (d : dict) (expect : res unit)
 (* key built from a native key with parameters ps: as_dict(), as_dict(private=False) *)
@@ -83,12 +84,12 @@ Inductive c11case :=
 | CFixed (z : Z) (bits : N) (expect : res (list N)).
 
 Definition import_view (a : orc_ans) (reg : bool) (kt : ktype) (d ps : dict)
-  : res (dict * dict * native) :=
+  : res (dict * dict * res dict * native) :=
   do k <- (if reg then registry_import (const_oracles a) d None ps
            else import_key (const_oracles a) kt d ps);
   do full <- as_dict k None [];
   do pub <- as_dict k (Some false) [];
-  Ok (full, pub, k_native k).
+  Ok (full, pub, as_dict k (Some true) [(asc "zz", PStr (asc "1"))], k_native k).
 
 Definition gen_view (n : native) (ps : dict) : res dict * res dict :=
   match key_of_native n ps with
@@ -96,9 +97,9 @@ Definition gen_view (n : native) (ps : dict) : res dict * res dict :=
   | Err e => (Err e, Err e)
   end.
 
-Definition triple_eqb (x y : dict * dict * native) : bool :=
-  let '(a, b, n) := x in let '(a', b', n') := y in
-  dict_eqb a a' && dict_eqb b b' && native_eqb n n'.
+Definition triple_eqb (x y : dict * dict * res dict * native) : bool :=
+  let '(a, b, c, n) := x in let '(a', b', c', n') := y in
+  dict_eqb a a' && dict_eqb b b' && res_eqb dict_eqb c c' && native_eqb n n'.
 Definition unit_eqb (_ _ : unit) : bool := true.
 
 Definition c11_check (c : c11case) : bool :=
@@ -119,7 +120,7 @@ Inductive c11out :=
 Definition c11_show (c : c11case) : c11out :=
   match c with
   | CImport reg kt d ps a _ =>
-      OImp (match import_view a reg kt d ps with Ok (x, y, _) => Ok (x, y) | Err e => Err e end)
+      OImp (match import_view a reg kt d ps with Ok (x, y, _, _) => Ok (x, y) | Err e => Err e end)
   | CValidate kt d _ => OVal (validate_dict_key kt d)
   | CGen n ps _ _ => let '(r1, r2) := gen_view n ps in OGen r1 r2
   | CFixed z b _ => OFix (int_to_fixed_base64 z b)
